@@ -1460,6 +1460,33 @@ READ_EXC = ('ConnectionResetError', 'InterruptedError', 'KeyError',
             'end of stream')
 
 
+# Inputs that are NOT the encoding of any value (nor a strict prefix of one):
+# what the decoder answers to them is not judged - the property is silent -
+# but whatever it answers, the operations after it must be right again (a
+# decoder object, buffer or table that survives the call must not keep
+# anything of the bad input).
+MALFORMED = (
+    ('String', (
+        ('text ending inside a 3-byte sequence', b'\x05abc\xe2\x82'),
+        ('text ending inside a 2-byte sequence', b'\x02a\xc3'),
+        ('text ending inside a 4-byte sequence', b'\x03\xf0\x9f\x98'),
+        ('lone continuation bytes', b'\x02\x80\x80'),
+        ('byte FF', b'\x01\xff'),
+        ('over-long form of U+0000', b'\x02\xc0\x80'),
+        ('encoded surrogate', b'\x03\xed\xa0\x80'),
+        ('lead byte then ASCII', b'\x02\xe2a'))),
+    (('PrefixedArray', 'Short', 'String'), (
+        ('second element ending inside a sequence',
+         b'\x00\x02\x01a\x02b\xc3'),
+        ('first element ending inside a sequence',
+         b'\x00\x02\x01\xe2\x01a'))),
+    ('VarInt', (('six continuation bytes', b'\xff' * 6 + b'\x01'),)),
+    ('VarIntPrefixedByteArray', (
+        ('length 2^32-1, two bytes present', b'\xff\xff\xff\xff\x0fab'),)),
+    ('Boolean', (('byte 02', b'\x02'),)),
+)
+
+
 def reps():
     out = []
     for want in REP_SPECS:
@@ -1576,6 +1603,12 @@ def fault_histories(thorough):
                     out += [['sendfail', a, b, nxt, k, e] for e in SEND_EXC]
                     out += [['readfail', a, b, nxt, k, e] for e in READ_EXC]
             out.append(['reenter', a, b, 'send', 0, ''])
+    for spec, inputs in MALFORMED:
+        a = REP_SPECS.index(spec)
+        for k in range(len(inputs)):
+            for b in range(n):
+                for nxt in ('send', 'read'):
+                    out.append(['malformed', a, b, nxt, k, ''])
     return out
 
 
@@ -1614,6 +1647,17 @@ def run_fault(R, item, before=()):
             ctx.cls('history: read failed with %s' % exc)
         if not st.failed:
             ctx.cls('history: fault point beyond the operation')
+    elif kind == 'malformed':
+        label, data = dict(MALFORMED)[REP_SPECS[ia]][k]
+        buf = PB()
+        buf.send(data + SENT)
+        buf.reset_cursor()
+        r = read_from(sa, buf)
+        pre = 'after %s.read(%s) (not an encoding: %s), which %s' % (
+            name(sa), hexs(data), label, 'returned %s' % short(r[1])
+            if r[0] == 'value' else 'raised ' + r[1])
+        ctx.outcome('read of a malformed input: %s' % r[0])
+        ctx.cls('history: malformed input (%s)' % label)
     else:
         inner = PB()
         sink = ReSink(inner, lambda s: send_into(sb, vb, s))
@@ -1675,6 +1719,7 @@ def run_fault(R, item, before=()):
 
 
 FAULT_TEXT = {'sendfail': 'failed send', 'readfail': 'failed read',
+              'malformed': 'read of a malformed input',
               'reenter': 're-entrant send'}
 FORKED = {'construct': run_construction, 'fault': run_fault}
 FORK_CHUNK = {'construct': 8, 'fault': 23}
@@ -1857,7 +1902,8 @@ REQUIRED_CLASSES = [
     'histories: fresh process', 'history: re-entrant send',
     'history: fault point beyond the operation',
 ] + ['history: send failed with %s' % e for e in SEND_EXC] \
-  + ['history: read failed with %s' % e for e in READ_EXC]
+  + ['history: read failed with %s' % e for e in READ_EXC] \
+  + ['history: malformed input (%s)' % l for _, i in MALFORMED for l, _ in i]
 
 
 # -- concurrent encoders / decoders ---------------------------------------------
